@@ -1244,4 +1244,35 @@ theorem bboxFrom_spec : ∀ (runs : List (RowRun α)) (r : Nat),
           · rw [if_neg hp] at hpq; have := i7 _ _ hpq
             have h1 := Nat.min_le_right a c0; have h2 := Nat.le_max_right b c1; omega
 
+/-! ### element kinds: a covered cell runs the same code as an ordinary cell -/
+
+theorem readRowK_eq {ε : Type} (pend : ε → Bool) (val : ε → α) : ∀ (evs : List (CellKind × ε × Nat)) (p : Nat),
+    readRowK pend val evs p = readRow pend val (evs.map fun e => (e.2.1, e.2.2)) p
+  | [], _ => rfl
+  | (.cell, e, k) :: rest, p => by
+    simp only [readRowK, List.map_cons, readRow, readRowK_eq pend val rest]
+  | (.covered, e, k) :: rest, p => by
+    simp only [readRowK, List.map_cons, readRow, readRowK_eq pend val rest]
+
+theorem collectKG_eq {ε : Type} (pend : ε → Bool) (val : ε → α) (runs : List (RowRunK ε)) :
+    collectKG pend val runs = collectG pend val (eraseKinds runs) := by
+  simp [collectKG, collectG, eraseKinds, readRowK_eq, Function.comp_def]
+
+theorem cellAtK_eq {ε : Type} (val : ε → α) : ∀ (evs : List (CellKind × ε × Nat)) (c : Nat),
+    cellAtK val evs c = cellAt (evs.map fun e => (val e.2.1, e.2.2)) c
+  | [], _ => rfl
+  | (kd, e, k) :: rest, c => by
+    simp only [cellAtK, List.map_cons, cellAt, cellAtK_eq val rest]
+
+theorem expandK_eq {ε : Type} (val : ε → α) (runs : List (RowRunK ε)) (r c : Nat) :
+    expandK val runs r c = expand (runsOf val (eraseKinds runs)) r c := by
+  have hmap : runsOf val (eraseKinds runs) =
+      runs.map fun x => (x.1, (fun evs : List (CellKind × ε × Nat) => evs.map fun e => (val e.2.1, e.2.2)) x.2) := by
+    simp [runsOf, eraseKinds, Function.comp_def]
+  unfold expandK expand
+  rw [hmap, runAt_map (fun evs : List (CellKind × ε × Nat) => evs.map fun e => (val e.2.1, e.2.2)) runs r]
+  cases runAt runs r with
+  | none => rfl
+  | some evs => simp only [Option.map_some]; exact cellAtK_eq val evs c
+
 end OdsRange
